@@ -278,7 +278,7 @@ func (g *gen) target(o GenOpts, l string, ruleCands, groupCands []string, v6 boo
 var opTable = []string{
 	"groupFew", "groupMany", "ruleAdd", "groupShare", "groupSplit", "ruleAttr", "groupRename",
 	"ruleDel", "svcVariant", "groupDup", "ruleElement", "ruleRename", "groupFew", "groupMany",
-	"ruleAdd", "ruleAttr", "ruleDel", "groupExtra", "svcExtra", "policyMissing", "policyExtra", "exprID",
+	"ruleAdd", "ruleAttr", "ruleDel", "groupExtra", "svcExtra", "policyMissing", "policyExtra", "exprID", "ruleSuffixClash",
 }
 
 // twin adds a rule that differs from an existing rule of the policy only
@@ -622,6 +622,30 @@ func (g *gen) mutate(a *Store, l string) string {
 		}
 		a.renameGroup(x, id)
 		return "groupRename"
+	case "ruleSuffixClash":
+		// The device holds X and X-1; X differs from the target's X, so the
+		// target's rule is inserted under a new id, whose obvious choice X-1
+		// is taken on the device.
+		p := pickPolicy()
+		if p == nil || len(p.Rules) < 2 {
+			return "noop"
+		}
+		x := p.Rules[g.intn(0, len(p.Rules)-1, l+"x")]
+		y := p.Rules[g.intn(0, len(p.Rules)-1, l+"y")]
+		nid := x.ID + "-1"
+		if x == y || strings.Contains(x.ID, "-") || p.usedID(nid) {
+			return "noop"
+		}
+		y.ID = nid
+		switch g.intn(0, 2, l+"how") {
+		case 0:
+			x.Action = map[string]string{"ALLOW": "DROP", "DROP": "ALLOW", "REJECT": "DROP"}[x.Action]
+		case 1:
+			x.Service = g.service(a, l+"srv")
+		default:
+			x.Logged = !x.Logged
+		}
+		return "ruleSuffixClash"
 	case "ruleRename": // rename a rule / swap the ids of two rules of a policy
 		p := pickPolicy()
 		if p == nil || len(p.Rules) == 0 {
